@@ -14,13 +14,14 @@ import lib
 
 CLIENT_OPS = ("ReadId", "NewId", "Register", "Unregister", "DeleteMarker")
 ACTIONS = ("ReadId", "NewId", "Register", "Unregister", "DeleteMarker", "PlantSymlink")
-FORMS = ("canonical", "legacy", "newline")
+FORMS = ("canonical", "legacy", "newline", "upper", "nonv4", "spaced")
+RHSM_KINDS = ("canonical", "unhyphenated", "upper", "nonv4", "spaced")
 
 # (name, InitSel, OpsSel, Depth): every history of that shape is emitted by TLC and replayed
 FAMILIES = {
-    "quick": [("main1", "main", "client", 1), ("ident4", "ident", "ident", 4),
+    "quick": [("main1", "main", "client", 1), ("ident4", "ident", "ident", 4), ("rhsm3", "rhsm", "ids", 3),
               ("markers2", "markers", "markers", 2), ("plant3", "bare", "plant", 3)],
-    "thorough": [("all2", "all", "client", 2), ("ident6", "ident", "ident", 6),
+    "thorough": [("all2", "plain", "client", 2), ("ident6", "ident", "ident", 6), ("rhsm5", "rhsm", "ident", 5),
                  ("markers3", "markers", "markers", 3), ("plant4", "bare", "plant", 4)],
 }
 # TLC -simulate from every initial state, every operation: (depth, behaviours, cap on replayed histories)
@@ -29,7 +30,8 @@ SIM = {"quick": (4, 320, 4000), "thorough": (6, 4000, 60000)}
 ASSUMPTIONS = [
     "the helpers are exercised in one process with constants.registered_files / unregistered_files / "
     "machine_id_file (and generate_machine_id's default destination) redirected to a temp world; "
-    "cert_auth.RHSM_CONFIG / rhsmCertificate.read are stubbed (identity present, module absent, certificate unreadable)",
+    "cert_auth.RHSM_CONFIG / rhsmCertificate.read are stubbed: module absent, certificate unreadable, or an identity "
+    "spelled canonically (v4), un-hyphenated, in upper case, as a non-version-4 UUID, or with white space around it",
     "identifier file states: absent, empty, canonical, un-hyphenated (upper or lower case by seed), trailing newline; "
     "files that hold something that is not a UUID are not explored (the code exits with an error there)",
     "a read 'rewrites' the file when its bytes change or when it is opened for writing / replaced "
@@ -82,6 +84,9 @@ def antecedents(trace, counts):
             if any(pre["reg"][d] in ("link", "dangling") or pre["unreg"][d] in ("link", "dangling")
                    for d in ("main", "legacy")):
                 counts["delete-with-link"] += 1
+        if op in ("ReadId", "NewId") and trace["init"]["rhsm"] != "none" and (op == "NewId" or not has_id(pre["idf"])):
+            counts["obtained-from-subscription-identity:" + trace["init"]["rhsm"]] += 1
+            hit = True
         if op in ("ReadId", "NewId") and e["ret"]["k"] == "id":
             cur = True
             counts["id-returned"] += 1
@@ -93,7 +98,9 @@ REQUIRED = ["exclusive:opposite-present", "link-at-own-marker:link", "link-at-ow
             "link-at-opposite-marker:link", "link-at-opposite-marker:dangling", "read-with-identity-established",
             "read-with-identifier-file:canonical", "read-with-identifier-file:legacy",
             "read-with-identifier-file:newline", "read-without-identifier-file:absent",
-            "read-without-identifier-file:empty", "id-returned"]
+            "read-without-identifier-file:empty", "id-returned"] + \
+           ["obtained-from-subscription-identity:" + k for k in RHSM_KINDS] + \
+           ["read-with-identifier-file:" + f for f in ("upper", "nonv4", "spaced")]
 
 
 def selftests(traces):
@@ -239,12 +246,14 @@ def run(prop, tier):
     verdict = lib.Verdict(prop, tier)       # starts the wall clock of the evidence record
     rng = random.Random(lib.seed())
     t0 = time.time()
-    full = lib.require_ok(lib.run_tlc("ClientState", "ClientState_full.cfg", workers=4, coverage=True,
-                                      tag="c17-full", timeout=1800), "ClientState design model")
+    with concurrent.futures.ThreadPoolExecutor(max_workers=1) as ex:     # the complete design model runs beside the emission
+        fut = ex.submit(lib.run_tlc, "ClientState", "ClientState_full.cfg", workers=4, coverage=True,
+                        tag="c17-full", timeout=1800)
+        models, cases, emitted = emit_all(tier, rng)
+        full = lib.require_ok(fut.result(), "ClientState design model")
     missing = [a for a in ACTIONS if not full.coverage.get(a)]
     if missing:
         raise lib.MachineryError("vacuity: actions never taken in the model: %s" % missing)
-    models, cases, emitted = emit_all(tier, rng)
     print("timing: models %.1fs (design: %d distinct states, all finite histories), %d histories to replay %s"
           % (time.time() - t0, full.distinct, len(cases), emitted))
     t1 = time.time()
